@@ -310,6 +310,7 @@ def run_shared(ck: Ck, n: int, full_cuts: int) -> tuple[list[int], int, dict, li
 
 
 GROUPS8 = [ALL_BITS[i:i + 8] for i in range(0, 128, 8)]
+LEN4_GROUPS = [0, 15]          # vectors 0..7 and 120..127
 
 
 def start_exhaustive_model(ck: Ck):
@@ -322,7 +323,7 @@ def start_exhaustive_model(ck: Ck):
 
 
 def corr_exhaustive(ck: Ck, escalate: bool, started=None) -> None:
-    """Every string over the syntax alphabet up to length 3 x ALL 128 option vectors in both tiers (thorough also length 4 x 128).
+    """Every string over the syntax alphabet up to length 3 x ALL 128 option vectors in both tiers (thorough also length 4 x 16).
     The model side evaluates every (text, vector) pair inside Coq.  The implementation side executes, per text, only vectors
     that differ from every executed one in an option that run actually read (recorded by properties on a subclass) and
     copies the trace for the others - quick tier and the length-4 scope; the thorough tier executes all 128 vectors up to
@@ -334,7 +335,11 @@ def corr_exhaustive(ck: Ck, escalate: bool, started=None) -> None:
     oracle_parts: list = []
     scopes = [(3, not ck.thorough)] + ([(4, True)] if ck.thorough else [])
     for n, share in scopes:
-        jobs = [[f'tok_shard_hash {U.coq_chars(g)} [] {U.coq_chars(alpha)} {n}'] for g in GROUPS8]
+        # length 3: all 16 groups of 8 vectors.  length 4 (thorough): the model side is evaluated for two groups = 16 vectors (every
+        # option on and off, the three string options in all combinations), 24 prefix shards per group so that it spreads over the cores.
+        groups = list(range(NGROUPS)) if n == 3 else LEN4_GROUPS
+        shards = [([], n)] if n == 3 else [([], 0)] + [([a], n - 1) for a in alpha]
+        jobs = [[f'tok_shard_hash {U.coq_chars(GROUPS8[g])} {U.coq_chars(pre)} {U.coq_chars(alpha)} {k}'] for g in groups for pre, k in shards]
         with (started[0] if (n == 3 and started) else ThreadPoolExecutor(1)) as ex:   # the model side (coqc processes) runs while the implementation side is computed
             fut = started[1] if (n == 3 and started) else ex.submit(U.coq_eval_many, ck, jobs, f'c03exh{n}', timeout=840, workers=14)
             sh = run_shared(ck, n, full_cuts if n == 3 else 2) if share else None
@@ -343,8 +348,10 @@ def corr_exhaustive(ck: Ck, escalate: bool, started=None) -> None:
                 for k, v in classes.items():
                     ck.hist(f'corr_exhaustive_len{n}_executed_vectors_per_text', k, v)
             else:
-                totals = U.pool_map(_impl_shard, [(g, n, full_cuts if n == 3 else 2) for g in GROUPS8], workers=14)
-                tots = [t[0] for t in totals]
+                totals = U.pool_map(_impl_shard, [(GROUPS8[g], n, full_cuts if n == 3 else 2) for g in groups], workers=14)
+                tots = [0] * NGROUPS
+                for g, t_ in zip(groups, totals):
+                    tots[g] = t_[0]
                 cnt = real = sum(t[1] for t in totals)
                 hist = {}
                 for t_ in totals:
@@ -352,6 +359,8 @@ def corr_exhaustive(ck: Ck, escalate: bool, started=None) -> None:
                         hist[k] = hist.get(k, 0) + v
                 oparts = [(t_[3], t_[4]) for t_ in totals]
             res = fut.result()
+        if sh is not None and n != 3:
+            cnt = cnt * len(groups) // NGROUPS          # cases compared with the model (the shared runs cover all 128 vectors)
         if n == 3:
             oracle_parts = oparts
         else:
@@ -362,17 +371,18 @@ def corr_exhaustive(ck: Ck, escalate: bool, started=None) -> None:
         nreal += real
         for k, v in hist.items():
             ck.hist('corr_exhaustive_outcome', k, v)
-        for g, r, tot in zip(GROUPS8, res, tots):
-            if r is None or U.parse_int63(r[0]) != tot:
-                bad.append(g)
+        for j, g in enumerate(groups):
+            rs = res[j * len(shards):(j + 1) * len(shards)]
+            if any(r is None for r in rs) or sum(U.parse_int63(r[0]) for r in rs) & U.M63 != tots[g]:
+                bad.append(GROUPS8[g])
     ck.extra['_oracle_from_corr'] = oracle_parts
     ck.extra['_oracle_scope'] = (3, full_cuts)
     detail = ''
     if bad:
         detail = _locate(ck, bad[0], alpha)
         ck.tie_broken.append('correspondence Tokenizer vs Text/Tokenizer.v (exhaustive small scope)')
-    scope = f'all strings over the {len(SYN_ALPHA)}-symbol syntax alphabet up to length 3' + (' and up to length 4' if ck.thorough else '') + \
-            ' x all 128 option vectors'
+    scope = f'all strings over the {len(SYN_ALPHA)}-symbol syntax alphabet up to length 3 x all 128 option vectors' + \
+            (' and up to length 4 x 16 vectors (0..7, 120..127)' if ck.thorough else '')
     ck.obligation('correspondence:tokenizer_exhaustive', not bad,
                   f'real Tokenizer vs model: {scope} ({ncases} cases, every one evaluated by the model; {nreal} executed on the implementation, '
                   f'the others are vectors that agree with an executed vector on every option that run read - reads recorded by properties, one '
@@ -1515,6 +1525,8 @@ def run(ck: Ck) -> None:
             'error_messages_format_with_the_arguments_passed': 'error_formats_ok',
             'tokenizer_every_indexing_site_guarded': 'tokenizer_sites_all_guarded',
             'tokenizer_every_raise_goes_through_self_error': 'tokenizer_raises_only_through_error',
+            'tokenizer_sees_chunks_only_through_next_char': 'tokenizer_sees_chunks_only_through_next_char',
+            'tokenizer_pushes_back_only_after_a_read': 'tokenizer_pushes_back_only_after_a_read',
             'keyvalues_parse_raises_only_KeyValError': 'kvparse_raises_only_keyvalerror',
             'keyvalues_parse_installs_KeyValError_on_the_tokenizer_on_every_path': 'kvparse_tokenizer_errors_are_keyvalerror',
         }, name='kvinst')
